@@ -588,7 +588,9 @@ impl Scenario for ConfirmedChangesSurviveRestart {
     }
 
     fn run(&self, seed: u64) -> Outcome {
-        let action = tape::choose(3); // 0 ACL write, 1 ACL write during a foreign PASE fail-safe, 2 removal of fabric 1 by fabric 2
+        // 0 ACL write, 1 ACL write during a foreign PASE fail-safe, 2 removal of fabric 1 by fabric 2,
+        // 3 group keys + AddGroup + a second AddGroup which only renames the group
+        let action = tape::choose(4);
         let t_action = 12_000 + tape::choose(8) * 500;
         let crash_at = (t_action as u64 + 300 + tape::choose(30) as u64 * 100) * 1000;
         let mut a_script = vec![CtlStep::Commission { dev: 0 }, CtlStep::OpenWindow { dev: 0, secs: 900 }];
@@ -607,9 +609,16 @@ impl Scenario for ConfirmedChangesSurviveRestart {
                 a_script.push(CtlStep::SleepUntil { ms: t_action });
                 a_script.push(CtlStep::AclWrite { dev: 0, subject: EXTRA_SUBJECT });
             }
-            _ => {
+            2 => {
                 b_script.push(CtlStep::SleepUntil { ms: t_action });
                 b_script.push(CtlStep::RemoveFabric { dev: 0, fabric_index: 1 });
+            }
+            _ => {
+                a_script.push(CtlStep::SleepUntil { ms: 9_000 });
+                a_script.push(CtlStep::GroupKeys { dev: 0 });
+                a_script.push(CtlStep::AddGroup { dev: 0, name: "first" });
+                a_script.push(CtlStep::SleepUntil { ms: t_action });
+                a_script.push(CtlStep::AddGroup { dev: 0, name: "second" });
             }
         }
         // After the restart: the surviving administrators read (twice: the first attempt may run
@@ -660,8 +669,14 @@ impl Scenario for ConfirmedChangesSurviveRestart {
         };
         // (time, fabric indices present, ACL size of fabric 1, extra entry present)
         let mut series: Vec<(u64, Vec<u8>, usize, bool)> = Vec::new();
+        // Group state of fabric 1 over time
+        let mut groups: Vec<(u64, Vec<String>)> = Vec::new();
         let run = drive_full_with(seed, cfg, &mut |t, states| {
             if let Some(Some(st)) = states.first() {
+                let g = st.fabrics.iter().find(|f| f.fab_idx == 1).map(|f| f.groups.clone()).unwrap_or_default();
+                if groups.last().map(|l| l.1 != g).unwrap_or(true) {
+                    groups.push((t, g));
+                }
                 let idx: Vec<u8> = st.fabrics.iter().map(|f| f.fab_idx).collect();
                 let acl = st.fabrics.iter().find(|f| f.fab_idx == 1).map(|f| f.acl.clone()).unwrap_or_default();
                 let extra = acl.iter().any(|e| e.contains(&format!("{}", EXTRA_SUBJECT)));
@@ -680,7 +695,7 @@ impl Scenario for ConfirmedChangesSurviveRestart {
         let describe = || {
             format!(
                 "action {}; crash at t={} us; A {:?}; B {:?}; device (t ms, fabric indices, ACL entries of fabric 1, extra entry): {:?}; incarnations {}",
-                ["ACL write", "ACL write during a foreign PASE fail-safe", "RemoveFabric(1) by fabric 2"][action as usize],
+                ["ACL write", "ACL write during a foreign PASE fail-safe", "RemoveFabric(1) by fabric 2", "group keys, AddGroup, renaming AddGroup"][action as usize],
                 crash_at,
                 a.iter().filter(|(n, _, _)| *n != "sleep").map(|(n, c, t)| format!("{n}:{c:x}@{}", t / 1000)).collect::<Vec<_>>(),
                 b.iter().filter(|(n, _, _)| *n != "sleep").map(|(n, c, t)| format!("{n}:{c:x}@{}", t / 1000)).collect::<Vec<_>>(),
@@ -705,6 +720,35 @@ impl Scenario for ConfirmedChangesSurviveRestart {
                         out.violate("C11-fabric-lost-over-restart", describe());
                     }
                 }
+                3 => {
+                    // What was confirmed before the crash is there after the restart: the key set,
+                    // the key map entry, the group on endpoint 1 - under the name of the last
+                    // confirmed AddGroup
+                    let adds: Vec<(bool, u64)> = a.iter().filter(|(n, _, _)| *n == "add_group").map(|(_, c, t)| (*c == 0xffff, *t)).collect();
+                    let keys_ok = matches!(ok(&a, "group_keys"), Some((true, t)) if t < crash_at);
+                    let fin_groups = groups.last().map(|g| g.1.clone()).unwrap_or_default();
+                    let describe_g = || format!("{}; group state of fabric 1 over time (t ms): {:?}", describe(), groups.iter().map(|(t, g)| (t / 1000, g.clone())).collect::<Vec<_>>());
+                    if keys_ok {
+                        out.count("c11_group_key_writes_confirmed_before_restart", 1);
+                        if !fin_groups.iter().any(|g| g.starts_with("key set")) || !fin_groups.iter().any(|g| g.starts_with("map ")) {
+                            out.violate("C11-confirmed-change-lost", describe_g());
+                        }
+                    }
+                    let confirmed: Vec<&str> = adds.iter().zip(["first", "second"]).filter(|((okk, t), _)| *okk && *t < crash_at).map(|(_, n)| n).collect();
+                    if let Some(last) = confirmed.last() {
+                        out.count("c11_group_writes_confirmed_before_restart", 1);
+                        let in_flight_second = adds.len() < 2 || !(adds[1].0 && adds[1].1 < crash_at);
+                        let has = |name: &str| fin_groups.iter().any(|g| g.starts_with("group ") && g.contains(&format!("\"{name}\"")));
+                        // (a second AddGroup that was in flight at the crash may or may not have made it)
+                        let fine = has(last) || (*last == "first" && in_flight_second && has("second"));
+                        if !fine {
+                            out.violate("C11-confirmed-change-lost", describe_g());
+                        }
+                    }
+                    if fin.as_ref().map(|f| f.1 != vec![1, 2]).unwrap_or(true) {
+                        out.violate("C11-fabric-lost-over-restart", describe());
+                    }
+                }
                 _ => {
                     if let Some((true, t_ack)) = ok(&b, "remove_fabric") {
                         if t_ack < crash_at {
@@ -725,7 +769,7 @@ impl Scenario for ConfirmedChangesSurviveRestart {
         }
         out.nontrivial = both_commissioned && run.device_incarnations >= 2;
         out.state_sigs.push(action as u64);
-        let action_name = ["ACL write", "ACL write during a foreign PASE fail-safe", "RemoveFabric(1) by fabric 2"][action as usize];
+        let action_name = ["ACL write", "ACL write during a foreign PASE fail-safe", "RemoveFabric(1) by fabric 2", "group keys, AddGroup, renaming AddGroup"][action as usize];
         out.sample = Some(json!({"action": action_name, "crash_at_us": crash_at,
             "A": a.iter().filter(|(n, _, _)| *n != "sleep").map(|(n, c, t)| format!("{n}:{c:x}@{}ms", t / 1000)).collect::<Vec<_>>()}));
         out
